@@ -304,6 +304,13 @@ def handleEmul (ws : List String) : String :=
       | some xs => showInts xs
       | none => "err"
     | _, _, _, _ => "bad-op"
+  | ["subax", ks, a, b, c] =>
+    match (ks.splitOn ",").mapM String.toInt?, optInt a, optInt b, optInt c with
+    | some keys, some a, some b, some c =>
+      match Emul.subvolumeAxis keys ⟨a, b, c⟩ with
+      | some xs => showInts xs
+      | none => "err"
+    | _, _, _, _ => "bad-op"
   | ["line", ks, a, b, c] =>
     match (ks.splitOn ",").mapM String.toInt?, optInt a, optInt b, optInt c with
     | some keys, some a, some b, some c =>
